@@ -171,7 +171,16 @@ impl<T: Qcow2IoOps> Qcow2Dev<T> {
         buf: &mut [u8],
     ) -> Qcow2Result<usize> {
         match mapping.cluster_offset {
-            Some(off) => self.call_read(off + off_in_cls as u64, buf).await,
+            Some(off) => {
+                let done = self.call_read(off + off_in_cls as u64, buf).await?;
+
+                // the host file may end inside one allocated cluster whose
+                // tail has never been written, and that part reads as zero
+                if done < buf.len() {
+                    buf[done..].fill(0);
+                }
+                Ok(buf.len())
+            }
             None => Err("DataFile mapping: None offset None".into()),
         }
     }
